@@ -11,6 +11,8 @@ def jobs(tier, ws):
     js += [j for j in C11.jobs(tier, ws, prop='C08') if 'read_write' in j.name]
     js += [j for j in C16.jobs(tier, ws, prop='C08')][:3]
     js += [j for j in C06.jobs(tier, ws, prop='C08') if 'move_file_block' in j.name][:2]
+    import C02
+    js += C02.commit_jobs(tier, 'C08', only=[(2, 0), (2, 2)] if tier == 'quick' else None)   # collective sequence of a wait does not depend on the local selection
     js.append(Job('C08/check_consistency_put', 'C08', ['src/dispatchers/attr_getput.m4', 'src/drivers/common/error_mpi2nc.c'], 'C08_consistency.c',
                   enforce='attr_getput.c:check_consistency_put', extra_src=['stubs/mpi_model.c'], canaries=['consistent_with_values', 'consistent_empty', 'length_disagreement', 'early_agreed_error'],
                   unwind=26, kind='bounded', timeout=600, bound='names <= 3 characters, attributes <= 2 elements; rank, process count, local arguments symbolic',
